@@ -68,6 +68,12 @@ def check_class(res, index, cls):
             bad2 = True
             res.bad("IN-2", f"{label}:{e.fn}", e.where(), f"{label}: {e.fn}() reorders a batch-carrying array (`{e.src()[:60]}`): "
                     f"answers no longer come in input order")
+    for e in ev:
+        if e.type == "scatter-dup":
+            bad2 = True
+            res.bad("IN-2", f"{label}:scatter:{e.target}", e.where(), f"{label}: `{e.src()[:60]}` scatters into positions taken from one component of "
+                    f"np.where on a 2-D mask: a point index occurs once per candidate face and the last assignment wins instead of the "
+                    f"logical OR over the faces")
     if not bad2:
         res.ok("IN-2", label, sample={"is_inside": label, "batch_reductions": nred})
     # ---------------------------------------------------------------- IN-3 own size state, homogeneous comparisons
